@@ -63,7 +63,7 @@ theorem serviceFns_get (g : Drg) (ids : List String) (acc : Ctx) (n : String) :
 
 /-- The loop over the required decisions (closures of `Spec.graphStep`): every variable holds
 the value of the last required decision that has it. -/
-theorem decisions_get (g : Drg) (env : Env) (p : Spec.SGraph) (sup : List String) (input : Ctx)
+theorem decisions_get (g : Drg) (env : Env) (p : Spec.SGraph) (sup : Ctx) (input : Ctx)
     (ids : List String) (k2 k3 : Ctx) (n : String)
     (h : foldCtx (fun id c => dropName (Spec.callDecision g (Spec.graphStep g env p) id sup input c)) ids k2 = .ok k3) :
     Ctx.get k3 n =
@@ -107,12 +107,6 @@ theorem decisions_get (g : Drg) (env : Env) (p : Spec.SGraph) (sup : List String
             by_cases hn : d.var = n
             · rw [if_pos hn, if_pos hn, hv]
             · rw [if_neg hn, if_neg hn]
-
-theorem restrict_nil (input : Ctx) : Spec.restrict [] input = [] := by
-  unfold Spec.restrict
-  induction input with
-  | nil => rfl
-  | cons e es ih => simp [List.filter]
 
 theorem overwrite_nil (c : Ctx) : Ctx.overwrite c [] = c := by
   unfold Ctx.overwrite
@@ -200,7 +194,7 @@ theorem wfp_graphAt (g : Drg) (env : Env) (n : Nat) : WFP (Spec.graphAt g env Sp
   | succ n ih => exact wfp_step g env _ ih
 
 /-- The context of required knowledge and decisions has strictly increasing keys. -/
-theorem required_ctx_WF (g : Drg) (prev : Spec.SGraph) (hp : WFP prev) (d : Decision) (sup : List String)
+theorem required_ctx_WF (g : Drg) (prev : Spec.SGraph) (hp : WFP prev) (d : Decision) (sup : Ctx)
     (input k1 k3 : Ctx)
     (hk1 : foldCtx (fun id c => Spec.callBkm g prev id c) d.reqKnowledge [] = .ok k1)
     (hk3 : foldCtx (fun id c => dropName (Spec.callDecision g prev id sup input c)) d.reqDecisions
